@@ -448,10 +448,8 @@ func (g *cssSheetGen) atRule(depth int) {
 		g.declList(depth+1, false)
 	case "tokens":
 		// unknown at-rule block: every token is streamed; whitespace between two tokens is a token of its own
-		n := r.Intn(4)
 		prev := ""
-		for i := 0; i < n; i++ {
-			t := Pick(r, []CSSTok{{"Ident", "bar"}, {"Number", "2"}, {"Colon", ":"}, {"Semicolon", ";"}, {"String", "\"}\""}, {"Hash", "#x"}, {"Comma", ","}})
+		emit := func(t CSSTok) {
 			if prev != "" && !(cssSafeEnd(prev) || cssSafeStart(t.Kind)) {
 				g.w(" ")
 				g.units = append(g.units, CSSUnit{Grammar: "Token", Data: " ", Values: nil})
@@ -460,6 +458,31 @@ func (g *cssSheetGen) atRule(depth int) {
 			g.units = append(g.units, CSSUnit{Grammar: "Token", Data: t.Text})
 			prev = t.Kind
 		}
+		// balanced groups nest: a '}' inside (…), […], {…} or fn(…) does not end the at-rule
+		var toks func(d int)
+		toks = func(d int) {
+			for i := r.Intn(4); i > 0; i-- {
+				if d < 3 && r.Intn(4) == 0 {
+					open, cl := Pick(r, [][2]CSSTok{
+						{{"LeftParenthesis", "("}, {"RightParenthesis", ")"}}, {{"LeftBracket", "["}, {"RightBracket", "]"}},
+						{{"LeftBrace", "{"}, {"RightBrace", "}"}}, {{"Function", "calc("}, {"RightParenthesis", ")"}}})[0], CSSTok{}
+					switch open.Kind {
+					case "LeftParenthesis", "Function":
+						cl = CSSTok{"RightParenthesis", ")"}
+					case "LeftBracket":
+						cl = CSSTok{"RightBracket", "]"}
+					default:
+						cl = CSSTok{"RightBrace", "}"}
+					}
+					emit(open)
+					toks(d + 1)
+					emit(cl)
+					continue
+				}
+				emit(Pick(r, []CSSTok{{"Ident", "bar"}, {"Number", "2"}, {"Colon", ":"}, {"Semicolon", ";"}, {"String", "\"}\""}, {"Hash", "#x"}, {"Comma", ","}}))
+			}
+		}
+		toks(0)
 	}
 	g.w("}")
 	g.units = append(g.units, CSSUnit{Grammar: "EndAtRule", Data: "}"})
